@@ -180,6 +180,42 @@ def gen_vm_case(rng, cid):
     return {"id": cid, "ver": ver, "naccts": n, "bal": str(BAL), "public": rng.random() < 0.6, "coinbase": coinbase, "blocks": blocks, "_vm": True}
 
 
+def feedeleg_family(rng, prefix):
+    """fee-delegation calls (the CONTRACT pays the fee), with and without an amount, whose scripted
+    VM run ends in a runtime error / success / VM system error with a fee below or above the
+    contract's own balance; the sender has zero, one or two EARLIER transactions in the same block
+    and one later; another sender follows.  A runtime error with a fee above the contract's balance
+    makes resetAccount(receiver) fail after resetAccount(sender) succeeded: the producer drops the tx."""
+    A = 10 ** 18
+    out = []
+    for ver in (0, 2, 3, rng.choice([4, 5])):
+        public = rng.random() < 0.5
+        for earlier in (0, 1, 2):
+            for k, (amt, verdict, fee) in enumerate([(10 * A, "rt", 5 * A), (0, "rt", 5 * A), (10 * A, "rt", A // 2), (3 * A, "ok", A // 4),
+                                                     (10 * A, "vmstart", 5 * A), (10 * A, "ok", 5 * A)]):
+                txs, nonce = [], 0
+                for e in range(earlier):
+                    nonce += 1
+                    txs.append({"from": 1, "nonce": nonce, "kind": rng.choice(["transfer", "call"]), "to": 2, "ctr": None, "amt": "1000"})
+                    if txs[-1]["kind"] == "call":
+                        txs[-1].update({"ctr": [0, 1], "payload": "ok|%d|k%d=e%d|" % (rng.choice([0, 900]), e, e), "amt": "0"})
+                        del txs[-1]["to"]
+                    else:
+                        del txs[-1]["ctr"]
+                dropped = (verdict == "vmstart") or (verdict == "rt" and fee > A) or (verdict == "ok" and fee > A + amt)
+                txs.append({"from": 1, "nonce": nonce + 1, "kind": "fdcall", "ctr": [0, 1], "amt": str(amt), "payload": "%s|%d|k3=fd|" % (verdict, fee)})
+                if not dropped:
+                    nonce += 1
+                txs.append({"from": 1, "nonce": nonce + 1, "kind": "transfer", "to": 3, "amt": "7"})
+                txs.append({"from": 2, "nonce": 1, "kind": "transfer", "to": 3, "amt": "5"})
+                out.append({"id": "%s-v%d-e%d-%d" % (prefix, ver, earlier, k), "ver": ver, "naccts": 5, "bal": str(BAL), "public": public, "coinbase": 4,
+                            "blocks": [{"ts": 1000, "txs": [{"from": 0, "nonce": 1, "kind": "deploy", "payload": "ok|0|a=b|deployed"},
+                                                            {"from": 0, "nonce": 2, "kind": "transfer", "ctr": [0, 1], "amt": str(A)}]},
+                                       {"ts": 2000, "txs": txs},
+                                       {"ts": 3000, "txs": [{"from": 3, "nonce": 1, "kind": "transfer", "to": 0, "amt": "1"}]}], "_vm": True})
+    return out
+
+
 def deadline_family(rng, prefix, ver=None, public=None):
     """the block-generation deadline (the context GatherTXs consults in checkBGTimeout) expires at
     every position of the candidate list of one block: already expired when gathering starts (-1)
